@@ -1,11 +1,13 @@
 """C11 — Content negotiation and media-handler resolution follow RFC 9110 precedence."""
 import falcon
+import falcon.asgi as falcon_asgi
 from falcon import errors as falcon_errors
 from falcon import mediatypes
 from falcon.media import BaseHandler
 from falcon.media import Handlers
 
 from vf.core import Info, Suite, Violation
+from vf.drivers import asgi as asgi_driver
 from vf.drivers import wsgi
 from vf.gen import c11_cases as gen
 from vf.ref import c11_negotiation as ref
@@ -622,8 +624,19 @@ class _Resource(object):
         resp.media = {'k': 1}
 
 
+class _AsyncResource(_Resource):
+    async def on_post(self, req, resp):
+        try:
+            self.seen = ('media', await req.get_media())
+        except falcon.HTTPUnsupportedMediaType:
+            self.seen = ('unsupported', None)
+        if self.rct is not None:
+            resp.content_type = self.rct
+        resp.media = {'k': 1}
+
+
 class HandlerEndToEnd(Suite):
-    """A WSGI falcon.App (vf.drivers.wsgi, PEP 3333 monitor on) whose
+    """A falcon.App (vf.drivers.wsgi, PEP 3333 monitor on) or a falcon.asgi.App (vf.drivers.asgi, ASGI monitor on) whose
     req_options.media_handlers / resp_options.media_handlers are mutated (set, delete, update, pop,
     setdefault, |=, clear, replaced by a new Handlers or by a copy()) between rounds of requests.
     Each case has a pool of 3 generated content types; after every step request j carries pool[j]
@@ -641,8 +654,13 @@ class HandlerEndToEnd(Suite):
     def run(self, case):
         objs = make_handlers()
         dtext, dstruct = probe_text_struct(case['default'], no_tab=True)
-        app = falcon.App(media_type=dtext)
-        res = _Resource()
+        asgi_stack = case.get('stack') == 'asgi'
+        if asgi_stack:
+            app = falcon_asgi.App(media_type=dtext)
+            res = _AsyncResource()
+        else:
+            app = falcon.App(media_type=dtext)
+            res = _Resource()
         app.add_route('/r', res)
         models = {}
         for side, opts, init in (('req', app.req_options, case['init_req']), ('resp', app.resp_options, case['init_resp'])):
@@ -667,8 +685,12 @@ class HandlerEndToEnd(Suite):
                 headers.append(('Content-Type', ctext))
             res.seen = None
             res.rct = rtext
-            env = wsgi.build_environ('POST', '/r', headers=headers, body=b'x')
-            result = wsgi.call(app, env)
+            if asgi_stack:
+                result = asgi_driver.call(app, asgi_driver.build_scope('POST', '/r', headers=headers),
+                                          asgi_driver.body_events(b'x'))
+            else:
+                env = wsgi.build_environ('POST', '/r', headers=headers, body=b'x')
+                result = wsgi.call(app, env)
             if result.error is not None:
                 raise result.error
             full = {s: {k: (KEY_STRUCT[k], v) for k, v in models[s].items()} for s in models}
@@ -679,7 +701,7 @@ class HandlerEndToEnd(Suite):
                 if k in last and last[k] is not exp:
                     changed += 1
                 last[k] = exp
-            ctx = '%s: Content-Type %r, response content type %r, default %r' % (ctx, ctext, rtext, dtext)
+            ctx = '%s %s: Content-Type %r, response content type %r, default %r' % (case.get('stack', 'wsgi'), ctx, ctext, rtext, dtext)
             want = ('unsupported', None) if exp_req is None else ('media', '<%s>' % exp_req.tag)
             if res.seen != want:
                 raise Violation('get_media_handler', '%s: req.get_media() -> %r, request mapping %r designates %r'
@@ -687,13 +709,13 @@ class HandlerEndToEnd(Suite):
             if exp_resp is None:
                 if result.code != 415:
                     raise Violation('render_handler', '%s: status %s body %r, response mapping %r designates no handler (415)'
-                                    % (ctx, result.status, result.body, models['resp']))
+                                    % (ctx, result.code, result.body, models['resp']))
                 labels.add('resp:415')
             else:
                 want_body = ('<%s>' % exp_resp.tag).encode()
                 if result.code != 200 or result.body != want_body:
                     raise Violation('render_handler', '%s: status %s body %r, response mapping %r designates %r'
-                                    % (ctx, result.status, result.body, models['resp'], exp_resp))
+                                    % (ctx, result.code, result.body, models['resp'], exp_resp))
                 labels.add('resp:200')
             labels.add('req:unsupported' if exp_req is None else 'req:handled')
 
